@@ -13,15 +13,15 @@ RULE = ("rasters 2x2..12x12 with random target layouts plus targets planted exac
         "chunking, max_distance, geometry, function) with >= 2 blocks and a target whose nearest cells lie in another block")
 BUDGET = {'quick': 150, 'thorough': 1200}
 MODES = {'quick': [('J', 8), ('I', 8)], 'thorough': [('J', 8), ('I', 8)]}
-FLOORS = {'quick': {'dask_equals_numpy': 400, 'multi_block': 300, 'cx!=cy': 100, 'target_on_halo_edge': 60, 'single_block_fallback': 40,
-                    'scheduler.threads': 100, 'stays_dask': 400, 'fraction_of_a_cell': 30},
+FLOORS = {'quick': {'dask_equals_numpy': 350, 'multi_block': 250, 'cx!=cy': 100, 'target_on_halo_edge': 60, 'single_block_fallback': 40,
+                    'scheduler.threads': 100, 'stays_dask': 400, 'fraction_of_a_cell': 30, 'zero_as_explicit_target': 60},
           'thorough': {'dask_equals_numpy': 4000, 'multi_block': 3000}}
 ASSUMPTIONS = ['domain (stated in the property): halo depth in cells <= raster height/width; otherwise Dask raises ValueError and the case is counted as rejected',
                'interpreted-mode workers run the same kernel source under CPython (no per-call JIT) to multiply the number of chunkings driven; compiled-mode workers cover the same kinds']
 
 
 def plan(tier, seed):
-    n = 1600 if tier == 'quick' else 16000
+    n = 1250 if tier == 'quick' else 16000
     return [('rand', i) for i in range(n)]
 
 
@@ -67,7 +67,13 @@ def check(rec, kind, idx, rng, tier):
             if 0 <= col < W:
                 img[int(rng.integers(0, H)), col] = 7; planted = True
     tvals = None
-    if rng.random() < 0.25:
+    zero_target = rng.random() < 0.15
+    if zero_target:
+        # 0 as the explicit target on a mostly non-zero raster (the halo outside the raster must not look like a target)
+        img = np.where(rng.random((H, W)) < 0.08, 0, rng.integers(1, 5, (H, W))).astype(img.dtype)
+        tvals = [0.0] if rng.random() < 0.6 else [0.0, 3.0]
+        geom['x0'] = 0.0 if rng.random() < 0.7 else geom['x0']; geom['y0'] = 0.0 if rng.random() < 0.7 else geom['y0']
+    elif rng.random() < 0.25:
         tvals = [float(v) for v in rng.choice([0, 1, 2, 3, 4, 7], size=int(rng.integers(1, 3)), replace=False)]      # 0 is a legal explicit target
     fname = str(rng.choice(['proximity', 'allocation', 'direction']))
     f = getattr(xrspatial, fname)
@@ -117,6 +123,7 @@ def check(rec, kind, idx, rng, tier):
             rec.nontriv(img.tobytes(), repr(chunks), repr(kw), repr(geom), fname)
     if geom['cx'] != geom['cy']: rec.ok('cx!=cy')
     if planted: rec.ok('target_on_halo_edge')
+    if zero_target: rec.ok('zero_as_explicit_target')
     if mdc in ('extent', 'inf', 'default'): rec.ok('single_block_fallback')
     if mdc == 'frac': rec.ok('fraction_of_a_cell')
     rec.ok('scheduler.' + ('synchronous' if sname == 'synchronous' else 'threads'))
